@@ -1,2 +1,11 @@
-#!/bin/sh
-exit 0
+#!/bin/bash
+# Build the harness offline from files on disk only.
+set -e
+cd "$(dirname "$0")/harness"
+export CARGO_NET_OFFLINE=true
+mkdir -p /verif/replays /verif/evidence
+cargo build --release --offline 2>&1 | tail -3
+./target/release/verif selftest
+if [ -d /verif/fuzz ] && [ -f /verif/fuzz/Cargo.toml ]; then
+  (cd /verif/fuzz && cargo +nightly fuzz build -O 2>&1 | tail -3) || echo "fuzz build failed (thorough fuzz campaigns unavailable)"
+fi
